@@ -145,7 +145,7 @@ class Lattice(Unit):
     name = "limits-x-locations"
     rule = ("instantiateVariableFont(font, limits) for every corpus/generated VF in the domain x per-axis restriction over P={min, mid-, default, mid+, max}: drop(None) / pin at each p / every 2-tuple range containing the default / every (lo, newdefault, hi) with a moved default + identity (thorough: also 2-tuple ranges excluding the default); "
             "1 axis: all; 2 axes: full product (quick: every non-moved pair + reduced-alphabet pairs + a seed-rotated quarter of the rest); 3 axes: every single, every pair (quick: reduced alphabet), every all-pinned lattice point, reduced-alphabet triples; >3 axes: every single, reduced-alphabet pairs (quick: a rotating sixth of the axis pairs), pin-all at min/default/max/mixed; "
-            "options: optimize=True everywhere, optimize=False and updateFontNames=True on every single-axis spec (thorough: optimize=False on every spec of fonts with <=2 axes); result saved and reloaded; "
+            "options: optimize=True everywhere, optimize=False, updateFontNames=True and a lazily loaded font (lazy=True) on every single-axis spec (thorough: optimize=False on every spec of fonts with <=2 axes); result saved and reloaded; "
             "at every lattice point of P^axes inside the new limits (thorough: quarter points for <=2 axes; >3 axes: restricted axes x {untouched at default, all-min, all-max, one axis off}): original at u vs instance at u restricted to the remaining axes - raw gvar points+phantoms in floats, glyphSet outline and advance, HarfBuzz outline/h-/v-advance, MVAR-tag metrics (fontTools floats + HarfBuzz), HarfBuzz shaping of all strings of length <=2 over 8 characters (glyph names, positions) within the derived rounding budget; "
             "structure: glyph order kept, fvar triples == requested limits, pinned axes removed, pin-all leaves no fvar/gvar/cvar/HVAR/VVAR/MVAR/avar/VarStore/FeatureVariations, STAT axis values inside the limits; distinct = (font, limits, options)")
     chunk = 6
@@ -155,7 +155,7 @@ class Lattice(Unit):
         "IUP-optimised tuple in instance", "composite glyph", "HVAR AdvWidthMap kept", "HVAR direct mapping kept", "MVAR kept", "MVAR dropped",
         "GDEF VarStore kept", "GDEF VarStore dropped", "FeatureVariations kept", "FeatureVariations resolved away", "substitution differs from default at a location",
         "CFF2 partial instance", "CFF2 static instance", "cvar kept", "cvar dropped", "VVAR kept", "variable kerning compared", "variable mark attachment compared",
-        "optimize=False", "updateFontNames=True", "avar-2 partial instance", "location off every master (interior)",
+        "optimize=False", "updateFontNames=True", "lazily loaded font", "avar-2 partial instance", "location off every master (interior)",
     )
 
     def setup(self, tier, seed):
@@ -179,6 +179,9 @@ class Lattice(Unit):
                     yield [key, spec, "noopt", tf]
                 if group == "single" and _META[key]["stat"]:
                     yield [key, spec, "names", tf]
+                if group == "single":
+                    # the same on a lazily loaded font (tables and sub-tables decoded on demand)
+                    yield [key, spec, "lazy", tf]
 
     def shards(self, tier, seed):
         # shard per font so that the cached observations of the original are reused
@@ -209,7 +212,9 @@ class Lattice(Unit):
         fkind = ("cff2" if O.is_cff2 else "glyf") + ":" + kind
         solver.rebaseTent.cache_clear()
 
-        font = TTFont(io.BytesIO(_FONTS[key]))
+        font = TTFont(io.BytesIO(_FONTS[key]), lazy=True if opt == "lazy" else None)
+        if opt == "lazy":
+            rec.witness("lazily loaded font")
         try:
             inst = instancer.instantiateVariableFont(font, dict(limits), inplace=True, optimize=optimize, updateFontNames=names)
         except (NotImplementedError, ValueError) as e:
